@@ -22,6 +22,7 @@ type Out struct {
 	Dma []DmaCase `json:"dma"`
 	Drv []DrvCase `json:"drv"`
 	Ovl []OvlCase `json:"ovl"`
+	Hist []HistCase `json:"hist"`
 }
 
 func ints(b []byte) []int {
@@ -47,6 +48,7 @@ func main() {
 	nDma := flag.Int("ndma", 60, "number of DMA histories")
 	nDrv := flag.Int("ndrv", 60, "number of driver cases")
 	nOvl := flag.Int("novl", 300, "number of overlap samples")
+	nHist := flag.Int("nhist", 60, "number of multi-queue flush histories")
 	out := flag.String("out", "", "output JSON file")
 	rep := flag.String("replay", "", "JSON file with cases to replay ({dma:[],drv:[],ovl:[]})")
 	flag.Parse()
@@ -71,10 +73,14 @@ func main() {
 		for _, c := range in.Ovl {
 			res.Ovl = append(res.Ovl, runOvl(c))
 		}
+		for _, c := range in.Hist {
+			res.Hist = append(res.Hist, replayHist(c))
+		}
 	} else {
 		res.Dma = genDmaCases(*seed, *nDma)
 		res.Drv = genDrvCases(*seed+7777, *nDrv)
 		res.Ovl = genOvlCases(*seed+999, *nOvl)
+		res.Hist = genHistCases(*seed+31337, *nHist)
 	}
 	if res.Dma == nil {
 		res.Dma = []DmaCase{}
@@ -84,6 +90,9 @@ func main() {
 	}
 	if res.Ovl == nil {
 		res.Ovl = []OvlCase{}
+	}
+	if res.Hist == nil {
+		res.Hist = []HistCase{}
 	}
 	data, _ := json.Marshal(res)
 	if *out == "" {
